@@ -193,7 +193,7 @@ theorem take_cleanup_post (rec : Rec) (hrec : RecOK rec) (a t : Op) (st : TakeSt
       have hok := tuJoinSrc_ok a a' t _ ([] ++ outs) e hi1 g hgt rfl (by simp [hai]) (Or.inr hai) h2 hm
       have e2 : tuJoinSrc ⟨a', t, { st with ph := .cleaning, srcOpCtor := st.srcOpCtor + 1 }, [] ++ outs, none⟩ e =
           ⟨a', t, { st with ph := .cleaning, srcOpCtor := st.srcOpCtor + 1, srcOpDtor := st.srcOpDtor + 1,
-                            srcCleanDone := true, srcErr := firstErr e st.srcErr, joined := true }, [] ++ outs, none⟩ := by
+                            srcErr := firstErr e st.srcErr, joined := true }, [] ++ outs, none⟩ := by
         simp [tuJoinSrc, tuJoin, hj]
       dsimp only
       rw [e2] at hok ⊢
